@@ -224,6 +224,25 @@ SetFieldOp ==
         \/ \E p \in 0..3 : emit([where |-> p], [k \in 1..Len(recs) |-> ins(recs[k], what[k], p)])
   /\ cur' = Sink /\ aux' = NoLayout /\ phase' = "done"
 
+\* C17: type, form and the depth / field / regularity queries describe the value truthfully
+RECURSIVE KeysOfT(_)
+KeysOfT(U) == CASE U.k = "rec" -> U.ks
+                [] U.k \in {"var", "reg", "opt"} -> KeysOfT(U.x)
+                [] OTHER -> <<>>
+HasUnionT(U) == LET RECURSIVE has(_)
+                    has(W) == CASE W.k = "union" -> TRUE
+                                [] W.k \in {"var", "reg", "opt"} -> has(W.x)
+                                [] W.k = "rec" -> \E j \in 1..Len(W.xs) : has(W.xs[j])
+                                [] OTHER -> FALSE
+                IN has(U)
+TypeFormOp ==
+  /\ OpReady("typeform")
+  /\ LET U == StripOpt(T) IN
+     Case("typeform", [none |-> 0],
+          [ok |-> 1, v |-> V, pd |-> PureDepthE(T), mind |-> MinDepthE(T), maxd |-> MaxDepthE(T),
+           isreg |-> IF AllRegE(T) THEN 1 ELSE 0, keys |-> KeysOfT(T), hasunion |-> IF HasUnionT(T) THEN 1 ELSE 0,
+           elemty |-> IF U.k \in {"var", "reg"} THEN TypeStr(U.x) ELSE ""])
+
 \* C16: buffers / pickle / NumPy / Arrow conversions keep the value (the replayer runs every converter on the layout)
 BuffersOp ==
   /\ OpReady("buffers")
@@ -250,7 +269,7 @@ UfuncOp ==
              \/ emit("neg", "cur", <<lay(cur)>>)
   /\ cur' = Sink /\ aux' = NoLayout /\ phase' = "done"
 
-Operate == BuffersOp \/ UfuncOp \/ SetFieldOp \/ SortOp \/ ConcatOp \/ SameValueOp \/ ReduceOp \/ Validity \/ ToListOp \/ SliceOp \/ NumOp \/ LocalIndexOp \/ FlattenOp \/ PadOp \/ CombOp
+Operate == TypeFormOp \/ BuffersOp \/ UfuncOp \/ SetFieldOp \/ SortOp \/ ConcatOp \/ SameValueOp \/ ReduceOp \/ Validity \/ ToListOp \/ SliceOp \/ NumOp \/ LocalIndexOp \/ FlattenOp \/ PadOp \/ CombOp
 
 Next == Build \/ Operate
 Spec == Init /\ [][Next]_vars
